@@ -655,6 +655,55 @@ class lazy_nth:
 
 
 def _nth_concat(ss, i):
+    r = _nth_concat_abs(ss, i)
+    if r is None and is_sym(i) and not LAZY_NTH and getattr(getattr(ENGINE, "contract", None), "strong_known_ms", 0):
+        r = _nth_concat_guess(ss, i)
+    return r
+
+
+def _nth_concat_guess(ss, i):
+    """locate a symbolic offset inside a concatenation by guessing the part from a model of the path condition and
+    then PROVING (full solver) that the offset lies in that part under the whole path condition"""
+    eng = ENGINE
+    if not hasattr(eng, "model_of_pc"):
+        return None
+    ms = int(eng.contract.strong_known_ms)
+    m = eng.model_of_pc(ms)
+    if m is None:
+        return None
+    parts = _flatten_concat(ss.t)
+    try:
+        iv = m.eval(_zi(i), model_completion=True).as_long()
+    except Exception:
+        return None
+    off_t = 0
+    off_v = 0
+    for part in parts:
+        P = SSeq(part, ss.elem, ss.py)
+        unit = z3.is_app_of(part, z3.Z3_OP_SEQ_UNIT)
+        ln_t = 1 if unit else L(P)
+        try:
+            ln_v = 1 if unit else m.eval(z3.Length(part), model_completion=True).as_long()
+        except Exception:
+            return None
+        if off_v <= iv < off_v + ln_v:
+            rel = i - off_t
+            if eng.prove_strong(And(rel >= 0, rel < ln_t), ms):
+                if unit:
+                    e = part.arg(0)
+                    if ss.elem == "str":
+                        return SSeq(e, "char", "str")
+                    if ss.elem == "opq":
+                        return SOpq(e)
+                    return SBool(e) if ss.elem == "bool" else SInt(e)
+                return nth(P, rel)
+            return None
+        off_t = off_t + ln_t
+        off_v += ln_v
+    return None
+
+
+def _nth_concat_abs(ss, i):
     parts = _flatten_concat(ss.t)
     off = 0
     for n, part in enumerate(parts):
